@@ -132,6 +132,12 @@ func (E *Engine) call(fr *Frame, st *State, cc *ssa.CallCommon, instr ssa.Instru
 		return E.callFn(fr, st, c.fn, args, c.bind, instr)
 	}
 	if u, ok := cc.Value.(*ssa.UnOp); ok && u.Op == token.MUL {
+		if fa, ok := u.X.(*ssa.FieldAddr); ok {
+			if name := fieldPath(fa); name != "" && E.P.pureMethods["callback:"+name] {
+				E.note("trusted: calls through the function-typed field " + name + " have no effect on verified state (//verif:quiet-callback)")
+				return E.freshResults(fr, st, "cb", cc.Signature().Results())
+			}
+		}
 		if g, ok := u.X.(*ssa.Global); ok {
 			if fn := E.P.funcVar(g); fn != nil {
 				E.note("package-level function variable " + g.Name() + " is assigned only at initialisation: a call through it is a call of that function")
@@ -205,6 +211,23 @@ func (E *Engine) callThroughIte(fr *Frame, st *State, c *Term, args []Val, instr
 		return nil, true
 	}
 	return E.iteVal(E.tb.And(cond), vals[0], vals[1]), true
+}
+
+// fieldPath: "Struct.field" of a field address.
+func fieldPath(fa *ssa.FieldAddr) string {
+	pt, ok := types.Unalias(fa.X.Type()).Underlying().(*types.Pointer)
+	if !ok {
+		return ""
+	}
+	st, ok := types.Unalias(pt.Elem()).Underlying().(*types.Struct)
+	if !ok || fa.Field >= st.NumFields() {
+		return ""
+	}
+	name := ""
+	if n, ok := types.Unalias(pt.Elem()).(*types.Named); ok {
+		name = n.Obj().Name()
+	}
+	return name + "." + st.Field(fa.Field).Name()
 }
 
 var noEffectMethods = map[string]bool{"Lock": true, "Unlock": true, "RLock": true, "RUnlock": true}
